@@ -234,7 +234,7 @@ RULES = {
 
 def _jobfiles(snap, p, jid):
     pre = "%s/workspace/%s/" % (p, jid)
-    return {k[len(pre):]: v for k, v in snap.items() if k.startswith(pre)}
+    return {k[len(pre):]: v for k, v in snap.items() if k.startswith(pre) and k != pre}
 
 
 def _raw_dirs(snap, p):
@@ -441,6 +441,25 @@ def _edge_worker(chunk):
     return out
 
 
+def _stratified(nodes, edges, limit, rnd):
+    """seeded sample that keeps every (command, outcome, shape of the pre-state, disk changed?) situation"""
+    groups = collections.defaultdict(list)
+    for (u, v) in edges:
+        a, b = nodes[u], nodes[v]
+        shape = tuple(sorted((p, len(W.fdict(x)), sum(1 for r in W.fdict(x).values() if r["spk"] != "ok"), bool(a["cacheEx"][p])) for p, x in a["ws"].items()))
+        groups[(b["last"]["op"], b["last"]["res"], shape, a["ws"] != b["ws"], a["cacheF"] != b["cacheF"])].append((u, v))
+    per = max(3, limit // (2 * max(1, len(groups))))
+    chosen, rest = [], []
+    for key in sorted(groups, key=repr):
+        g = groups[key]
+        rnd.shuffle(g)
+        chosen += g[:per]
+        rest += g[per:]
+    if len(chosen) < limit:
+        chosen += rnd.sample(rest, min(len(rest), limit - len(chosen)))
+    return chosen if len(chosen) <= 2 * limit else rnd.sample(chosen, 2 * limit)
+
+
 class Config:
     def __init__(self, name, ops, depth, spelling="int", keys=("a", "b"), vals=("i0", "i1"), projects=("P",), init_jobs=0, init_cache=(False,),
                  docvals=("d1",), files=("f1",), fvals=("c1",), invariants=(), properties=(), limit=None):
@@ -530,8 +549,9 @@ def run(ctx, pid, workers=16):
             continue
         nodes, edges, parent, init = W.load_graph(dot)
         total = len(edges)
-        if cfg.limit and len(edges) > cfg.limit:
-            edges = rnd.sample(edges, cfg.limit)
+        limit = cfg.limit or (400 if ctx.quick else 8000)
+        if len(edges) > limit:
+            edges = _stratified(nodes, edges, limit, rnd)
         _G.update(nodes=nodes, parent=parent, uni=uni, projects=cfg.projects, rules=rules, damaging=damaging, base=ctx.work)
         n = 64
         flat = [x for ch in core.pmap(_edge_worker, [edges[i::n] for i in range(n) if edges[i::n]], procs=16, chunks=1) for x in ch]
